@@ -41,6 +41,9 @@ type KdcScript struct {
 	// Overlap: this many further requests with the same content are sent to the same proxy instance while the first
 	// is still waiting for its KDC (every KDC delays its reply); each request is recorded and judged on its own
 	Overlap int `json:"overlap,omitempty"`
+	// After: what the same proxy instance served right before the judged request: "" / "nothing", "other-realm" (a
+	// request naming OTHER.TEST, a second configured realm with a KDC of its own), "unknown-realm"
+	After string `json:"after,omitempty"`
 }
 
 type kdcProxyMsg struct {
@@ -77,7 +80,22 @@ func (r *Runner) RunKdc(s *KdcScript, tw *TraceWriter, rng *rand.Rand) error {
 		kdcs = append(kdcs, k)
 		addrs = append(addrs, k.Addr)
 	}
-	kt, conf, err := r.KerberosFiles(addrs)
+	// the KDC of the other realm: it answers, and it must never see anything of a request for another realm
+	var otherKDC *envx.KDC
+	var otherAddrs []string
+	if s.After == "other-realm" {
+		oreply := make([]byte, 64)
+		rng.Read(oreply)
+		oreply[0] = 0xEE
+		ok, err := envx.NewKDC("reply-close", "silent", oreply)
+		if err != nil {
+			return err
+		}
+		otherKDC = ok
+		defer ok.Close()
+		otherAddrs = []string{ok.Addr}
+	}
+	kt, conf, err := r.KerberosFilesRealms(addrs, otherAddrs)
 	if err != nil {
 		return err
 	}
@@ -157,6 +175,18 @@ func (r *Runner) RunKdc(s *KdcScript, tw *TraceWriter, rng *rand.Rand) error {
 			}(k)
 		}
 	}
+	if s.After == "other-realm" || s.After == "unknown-realm" {
+		pmsg := make([]byte, 4+32)
+		binary.BigEndian.PutUint32(pmsg, 32)
+		rng.Read(pmsg[4:])
+		pb, _ := asn1.Marshal(kdcProxyMsg{Message: pmsg, Realm: map[string]string{"other-realm": "OTHER.TEST", "unknown-realm": "NOPE.EXAMPLE"}[s.After]})
+		rawExchange(strings.TrimPrefix(srv.URL, "http://"), "POST", "/KdcProxy", pb, false, 10*time.Second)
+	}
+	foreign0 := 0
+	if otherKDC != nil {
+		tcp0, udp0 := otherKDC.Snapshot()
+		foreign0 = len(tcp0) + len(udp0)
+	}
 	t0 := time.Now()
 	status, rb := rawExchange(strings.TrimPrefix(srv.URL, "http://"), s.Method, "/KdcProxy", body, s.Len == "none", 10*time.Second)
 	ms := int(time.Since(t0) / time.Millisecond)
@@ -230,8 +260,17 @@ func (r *Runner) RunKdc(s *KdcScript, tw *TraceWriter, rng *rand.Rand) error {
 	if kd == nil {
 		kd = []M{}
 	}
+	sentForeign := false
+	if otherKDC != nil {
+		tcp1, udp1 := otherKDC.Snapshot()
+		sentForeign = len(tcp1)+len(udp1) > foreign0
+	}
+	after := s.After
+	if after == "" {
+		after = "nothing"
+	}
 	cls := s.Method + "." + s.Len + "." + s.Body + "." + s.Realm
-	tw.Line(M{"ev": "kdc", "script": s.ID, "cls": cls, "target": "handler", "method": s.Method, "len": s.Len, "body": s.Body, "realm": s.Realm, "kdcs": kd, "size": s.Size, "sizecls": s.SizeCls,
+	tw.Line(M{"ev": "kdc", "script": s.ID, "cls": cls, "target": "handler", "after": after, "sentForeign": sentForeign, "method": s.Method, "len": s.Len, "body": s.Body, "realm": s.Realm, "kdcs": kd, "size": s.Size, "sizecls": s.SizeCls,
 		"status": status, "ms": ms, "replyOK": replyOK, "sentOK": sentOK, "anySent": anySent, "panicked": panicked, "partialOnly": partialOnly})
 	// the overlapping requests: same proxy, same KDCs, same expectations - each judged on its own
 	for _, x := range extras {
@@ -247,7 +286,7 @@ func (r *Runner) RunKdc(s *KdcScript, tw *TraceWriter, rng *rand.Rand) error {
 				}
 			}
 		}
-		tw.Line(M{"ev": "kdc", "script": s.ID, "cls": cls, "target": "overlapping", "method": s.Method, "len": s.Len, "body": s.Body, "realm": s.Realm, "kdcs": kd, "size": s.Size, "sizecls": s.SizeCls,
+		tw.Line(M{"ev": "kdc", "script": s.ID, "cls": cls, "target": "overlapping", "after": after, "sentForeign": false, "method": s.Method, "len": s.Len, "body": s.Body, "realm": s.Realm, "kdcs": kd, "size": s.Size, "sizecls": s.SizeCls,
 			"status": x.status, "ms": x.ms, "replyOK": rok, "sentOK": sentOK, "anySent": anySent, "panicked": panicked, "partialOnly": partialOnly})
 	}
 	return nil
